@@ -72,6 +72,13 @@ def handle (op : String) (args : List String) (impl : String) : Verdict :=
     | some a, some ns =>
       C06.judgeExact (a.withScale ns) ⟨a.int * (10 ^ (ns - a.scale).toNat : Nat), ns⟩ impl "wsext" (ns == a.scale)
     | _, _ => badInput "wsext args"
+  | "rext", [a, ns] =>
+    match parseDec? a, parseInt? ns with
+    | some a, some ns =>
+      let spec : Dec := if ns ≥ a.scale then ⟨a.int * (10 ^ (ns - a.scale).toNat : Nat), ns⟩
+        else ⟨(if a.int < 0 then -1 else 1) * ((a.int.natAbs / 10 ^ (a.scale - ns).toNat : Nat) : Int), ns⟩
+      C06.judgeExact (a.toOwnedWithScale ns) spec impl (if ns ≥ a.scale then "rext:up" else "rext:down") (ns == a.scale)
+    | _, _ => badInput "rext args"
   | "wpext", [a, p] =>
     match parseDec? a, parseNat? p with
     | some a, some p =>
